@@ -2,7 +2,9 @@
    Definitions only: the model M of the Rust functions, the specification S, the encoders E with
    their [legal] predicates, and the computable known-class predicate.  Proofs: Merge_proofs.v.
 
-   Modelled Rust functions (current /repo tree, i.e. with the fix: commits, e.g. ff3c85e):
+   Modelled Rust functions (the tree with the fix: commits of branch c17-fixes — both table
+   relationship type URIs, absolute targets, unescaped names, xsd:boolean insertRow, tables
+   without data rows — on top of c06's c10d910 / 9d7bade / 33ac026 and ff3c85e):
      src/xlsx/mod.rs  xml_reader (name lookup only), get_attribute, read_merge_cells,
                       read_merged_regions, load_merged_regions / merged_regions,
                       merged_regions_by_sheet, worksheet_merge_cells(_at),
@@ -16,8 +18,10 @@
 
    Input level.  XML parts enter as the list of quick-xml events that calamine's loops see
    (expand_empty_elements is on: <x/> arrives as Start, End).  Attribute values are the RAW bytes
-   between the quotes: every function modelled here reads them with `decoder().decode` or compares
-   them as bytes, none calls `unescape` — which is exactly finding EscapedText below.  Strings are
+   between the quotes: the functions modelled here read them with `decoder().decode` or compare
+   them as bytes; the table display name and the column names go through
+   `decode_and_unescape_value`, modelled by [unescape] (quick-xml 0.37 escape::unescape_with over
+   the predefined entities).  Strings are
    byte lists (UTF-8); the zip archive is an association list name -> event list in
    central-directory order (inflate, tokenisation: trusted base).  The xls side starts at the
    list of (type, data) records of a sheet substream (record framing: C02/C12). *)
@@ -71,6 +75,7 @@ Definition s_name : str := [110; 97; 109; 101].  (* "name" *)
 Definition s_zero : str := [48].  (* "0" *)
 Definition s_one : str := [49].  (* "1" *)
 Definition s_false : str := [102; 97; 108; 115; 101].  (* "false" *)
+Definition s_true : str := [116; 114; 117; 101].  (* "true" *)
 Definition s_id : str := [105; 100].  (* "id" *)
 Definition s_rId : str := [114; 73; 100].  (* "rId" *)
 Definition s_xl_worksheets : str := [120; 108; 47; 119; 111; 114; 107; 115; 104; 101; 101; 116; 115; 47].  (* "xl/worksheets/" *)
@@ -81,10 +86,15 @@ Definition s_xl_tables : str := [120; 108; 47; 116; 97; 98; 108; 101; 115; 47]. 
 Definition s_dd_tables : str := [46; 46; 47; 116; 97; 98; 108; 101; 115; 47].  (* "../tables/" *)
 Definition s_abs_tables : str := [47; 120; 108; 47; 116; 97; 98; 108; 101; 115; 47].  (* "/xl/tables/" *)
 Definition s_xl_worksheets_rels : str := [120; 108; 47; 119; 111; 114; 107; 115; 104; 101; 101; 116; 115; 47; 95; 114; 101; 108; 115; 47].  (* "xl/worksheets/_rels/" *)
-Definition s_amp : str := [38; 97; 109; 112; 59].  (* "&amp;" *)
-Definition s_lt : str := [38; 108; 116; 59].  (* "&lt;" *)
-Definition s_gt : str := [38; 103; 116; 59].  (* "&gt;" *)
-Definition s_quot : str := [38; 113; 117; 111; 116; 59].  (* "&quot;" *)
+Definition n_amp : str := [97; 109; 112].  (* "amp" *)
+Definition n_lt : str := [108; 116].  (* "lt" *)
+Definition n_gt : str := [103; 116].  (* "gt" *)
+Definition n_quot : str := [113; 117; 111; 116].  (* "quot" *)
+Definition n_apos : str := [97; 112; 111; 115].  (* "apos" *)
+Definition ch_amp : N := 38.     (* & *)
+Definition ch_semi : N := 59.    (* ; *)
+Definition ch_hash : N := 35.    (* # *)
+Definition ch_x : N := 120.      (* x *)
 Definition s_tableStyleInfo : str := [116; 97; 98; 108; 101; 83; 116; 121; 108; 101; 73; 110; 102; 111].  (* "tableStyleInfo" *)
 Definition s_style_name : str := [84; 97; 98; 108; 101; 83; 116; 121; 108; 101; 77; 101; 100; 105; 117; 109; 50].  (* "TableStyleMedium2" *)
 Definition ch_slash : N := 47.
@@ -93,6 +103,8 @@ Definition ch_slash : N := 47.
 Definition E_XML_EOF : N := 10.
 Definition E_TABLE_NOT_FOUND : N := 11.
 Definition E_PARSE_INT : N := 12.
+Definition E_ESCAPE : N := 14.           (* quick_xml::escape::EscapeError *)
+Definition E_UNEXPECTED : N := 15.       (* XlsxError::Unexpected *)
 
 (* ------------------------------------------------------------------ XML events, zip *)
 Inductive event : Type :=
@@ -240,23 +252,27 @@ Definition rels_location (sheet_path : str) : outcome (str * str) :=
       Ok (base, base ++ s_slash_rels ++ file ++ s_dot_rels)
   end.
 
-(* the attribute loop of a Relationship element: later attributes overwrite earlier ones *)
+(* the attribute loop of a Relationship element: later attributes overwrite earlier ones; the
+   type is a table relationship in its transitional or its strict (ISO/IEC 29500) spelling *)
+Definition is_table_type (v : str) : bool :=
+  str_eqb v s_table_type || str_eqb v s_table_type_strict.
 Definition rel_attr (acc : str * bool) (kv : str * str) : str * bool :=
   if str_eqb (fst kv) s_Target then (snd kv, snd acc)
-  else if str_eqb (fst kv) s_Type then (fst acc, str_eqb (snd kv) s_table_type)
+  else if str_eqb (fst kv) s_Type then (fst acc, is_table_type (snd kv))
   else acc.
 
-(* "../" targets are resolved against the parent of the sheet's folder; the empty target is
-   skipped; everything else is used as a zip name as it stands *)
+(* "../" targets are resolved against the parent of the sheet's folder (no parent: an error);
+   a target with a leading '/' names the part from the package root (strip_prefix('/')); the
+   empty target is skipped; everything else is used as a zip name as it stands *)
 Definition resolve_target (base_folder target : str) : outcome (option str) :=
   if starts_with s_dotdotslash target then
     match rfind_slash base_folder with
-    | None => Panic                                              (* expect("Must be a parent folder") *)
+    | None => Err E_UNEXPECTED                                   (* ok_or(Unexpected(..))? *)
     | Some j => Ok (Some (firstn j base_folder ++ skipn 2 target))
     end
   else match target with
        | [] => Ok None
-       | _ => Ok (Some target)
+       | c :: rest => if c =? ch_slash then Ok (Some rest) else Ok (Some target)
        end.
 
 Fixpoint scan_rels (base_folder : str) (evs : list event) : outcome (list str) :=
@@ -286,18 +302,98 @@ Definition parse_u32 (s : str) : outcome N :=
          else Err E_PARSE_INT
   end.
 
+(* ---------- Attribute::decode_and_unescape_value (quick-xml 0.37.5 escape::unescape_with) ----------
+   The value is cut at every '&' and ';': an '&' must be followed — before any other '&' — by a
+   ';'; the text between them is "#" + a decimal number, "#x" + a hexadecimal number (a character
+   reference) or one of the five predefined entity names; anything else is an EscapeError. *)
+
+(* char::encode_utf8 *)
+Definition utf8_enc (c : N) : str :=
+  if c <? 128 then [c]
+  else if c <? 2048 then [192 + c / 64; 128 + c mod 64]
+  else if c <? 65536 then [224 + c / 4096; 128 + (c / 64) mod 64; 128 + c mod 64]
+  else [240 + c / 262144; 128 + (c / 4096) mod 64; 128 + (c / 64) mod 64; 128 + c mod 64].
+(* char::from_u32(c).is_some() *)
+Definition is_scalar (c : N) : bool := (c <? 55296) || ((57343 <? c) && (c <=? 1114111)).
+
+Definition decval (c : N) : option N := if is_digit c then Some (c - 48) else None.
+Definition hexval (c : N) : option N :=            (* char::to_digit(16) *)
+  if is_digit c then Some (c - 48)
+  else if (97 <=? c) && (c <=? 102) then Some (c - 87)
+  else if (65 <=? c) && (c <=? 70) then Some (c - 55)
+  else None.
+Fixpoint radix_acc (val : N -> option N) (radix : N) (s : str) (acc : N) : option N :=
+  match s with
+  | [] => Some acc
+  | c :: t => match val c with
+              | None => None
+              | Some dg => radix_acc val radix t (acc * radix + dg)
+              end
+  end.
+(* escape::from_str_radix: a leading sign is refused by quick-xml, every other non-digit and the
+   empty string by u32::from_str_radix ('+' and '-' are no digits: one test covers both); a value
+   above u32::MAX is an overflow error *)
+Definition from_str_radix (val : N -> option N) (radix : N) (s : str) : option N :=
+  match s with
+  | [] => None
+  | _ => match radix_acc val radix s 0 with
+         | Some v => if v <=? U32MAX then Some v else None
+         | None => None
+         end
+  end.
+(* escape::parse_number *)
+Definition parse_char_ref (num : str) : option N :=
+  let code := match num with
+              | c :: hex => if c =? ch_x then from_str_radix hexval 16 hex
+                            else from_str_radix decval 10 num
+              | [] => None
+              end in
+  match code with
+  | None => None
+  | Some c => if c =? 0 then None else if is_scalar c then Some c else None
+  end.
+Definition resolve_entity (pat : str) : outcome str :=
+  match pat with
+  | c :: num =>
+      if c =? ch_hash then
+        match parse_char_ref num with Some cp => Ok (utf8_enc cp) | None => Err E_ESCAPE end
+      else if str_eqb pat n_lt then Ok [60]
+      else if str_eqb pat n_gt then Ok [62]
+      else if str_eqb pat n_amp then Ok [38]
+      else if str_eqb pat n_apos then Ok [39]
+      else if str_eqb pat n_quot then Ok [34]
+      else Err E_ESCAPE
+  | [] => Err E_ESCAPE
+  end.
+(* [pend] = Some p: inside an entity, p = the characters after the '&' so far, reversed *)
+Fixpoint unesc_go (s : str) (pend : option str) : outcome str :=
+  match s with
+  | [] => match pend with None => Ok [] | Some _ => Err E_ESCAPE end     (* UnterminatedEntity *)
+  | c :: t =>
+      match pend with
+      | None => if c =? ch_amp then unesc_go t (Some [])
+                else do r <- unesc_go t None; Ok (c :: r)
+      | Some p => if c =? ch_semi then
+                    do e <- resolve_entity (rev p); do r <- unesc_go t None; Ok (e ++ r)
+                  else if c =? ch_amp then Err E_ESCAPE                   (* UnterminatedEntity *)
+                  else unesc_go t (Some (c :: p))
+      end
+  end.
+Definition unescape (s : str) : outcome str := unesc_go s None.
+
 Record tmeta : Type := mkTmeta {
   tm_name : str; tm_ref : str; tm_header : N; tm_insert : bool; tm_totals : N }.
 Definition tmeta_init : tmeta := mkTmeta [] [] 1 false 0.      (* InnerTableMetadata::new() *)
 
 Definition table_attr (m : tmeta) (kv : str * str) : outcome tmeta :=
   let k := fst kv in let v := snd kv in
-  if str_eqb k s_displayName then Ok (mkTmeta v (tm_ref m) (tm_header m) (tm_insert m) (tm_totals m))
+  if str_eqb k s_displayName then                                (* decode_and_unescape_value *)
+    do u <- unescape v; Ok (mkTmeta u (tm_ref m) (tm_header m) (tm_insert m) (tm_totals m))
   else if str_eqb k s_ref then Ok (mkTmeta (tm_name m) v (tm_header m) (tm_insert m) (tm_totals m))
   else if str_eqb k s_headerRowCount then
     do n <- parse_u32 v; Ok (mkTmeta (tm_name m) (tm_ref m) n (tm_insert m) (tm_totals m))
-  else if str_eqb k s_insertRow then                             (* *v != b"0"[..] *)
-    Ok (mkTmeta (tm_name m) (tm_ref m) (tm_header m) (negb (str_eqb v s_zero)) (tm_totals m))
+  else if str_eqb k s_insertRow then                             (* matches!(&*v, b"1" | b"true") *)
+    Ok (mkTmeta (tm_name m) (tm_ref m) (tm_header m) (str_eqb v s_one || str_eqb v s_true) (tm_totals m))
   else if str_eqb k s_totalsRowCount then
     do n <- parse_u32 v; Ok (mkTmeta (tm_name m) (tm_ref m) (tm_header m) (tm_insert m) n)
   else Ok m.
@@ -308,30 +404,41 @@ Fixpoint table_attrs (m : tmeta) (attrs : list (str * str)) : outcome tmeta :=
   | kv :: t => do m' <- table_attr m kv; table_attrs m' t
   end.
 
-(* every attribute of a tableColumn element whose key is exactly "name" *)
-Definition column_names (attrs : list (str * str)) : list str :=
-  map snd (filter (fun kv => str_eqb (fst kv) s_name) attrs).
+(* every attribute of a tableColumn element whose key is exactly "name", unescaped *)
+Fixpoint column_names (attrs : list (str * str)) : outcome (list str) :=
+  match attrs with
+  | [] => Ok []
+  | kv :: t => if str_eqb (fst kv) s_name
+               then do u <- unescape (snd kv); do r <- column_names t; Ok (u :: r)
+               else column_names t
+  end.
 
 Fixpoint scan_table (evs : list event) (m : tmeta) (cols : list str) : outcome (tmeta * list str) :=
   match evs with
   | [] => Err E_XML_EOF
   | EStart n attrs :: t =>
       if str_eqb (local_name n) s_table then do m' <- table_attrs m attrs; scan_table t m' cols
-      else if str_eqb (local_name n) s_tableColumn then scan_table t m (cols ++ column_names attrs)
+      else if str_eqb (local_name n) s_tableColumn then
+        do cs <- column_names attrs; scan_table t m (cols ++ cs)
       else scan_table t m cols
   | EEnd n :: t =>
       if str_eqb (local_name n) s_table then Ok (m, cols) else scan_table t m cols
   | _ :: t => scan_table t m cols
   end.
 
-(* the geometry arithmetic after the table part has been scanned (u32, overflow checks on) *)
+(* the geometry arithmetic after the table part has been scanned (u32, all checked): the header
+   rows move the first row down; the totals rows and the insert row are taken off the last row;
+   when they reach up to row 0 the table has no data rows, recorded — like every table without
+   data rows — as a first data row below the last one *)
 Definition table_dims (m : tmeta) : outcome dims :=
   do d <- get_dimension (tm_ref m);
   let '((sr, sc), (er, ec)) := d in
-  do sr1 <- (if tm_header m =? 0 then Ok sr else add32 sr (tm_header m));
-  do er1 <- (if tm_totals m =? 0 then Ok er else sub32 er (tm_totals m));
-  do er2 <- (if tm_insert m then sub32 er1 1 else Ok er1);
-  Ok ((sr1, sc), (er2, ec)).
+  do sr1 <- (if tm_header m =? 0 then Ok sr
+             else if sr + tm_header m <=? U32MAX then Ok (sr + tm_header m) else Err E_UNEXPECTED);
+  let ins := if tm_insert m then 1 else 0 in
+  do below <- (if tm_totals m + ins <=? U32MAX then Ok (tm_totals m + ins) else Err E_UNEXPECTED);
+  if below <=? er then Ok ((sr1, sc), (er - below, ec))
+  else Ok ((N.max sr1 (er + 1), sc), (er, ec)).
 
 Definition table_entry := (str * str * list str * dims)%type.   (* name, sheet, columns, data box *)
 Definition te_name (t : table_entry) : str := fst (fst (fst t)).
@@ -380,18 +487,24 @@ Fixpoint get_table_meta (tables : list table_entry) (name : str) : outcome table
   | t :: rest => if str_eqb (te_name t) name then Ok t else get_table_meta rest name
   end.
 
+(* `start.0 > end.0 || start.1 > end.1`: the stored box of a table without data rows *)
+Definition no_data (b : dims) : bool :=
+  (fst (snd b) <? fst (fst b)) || (snd (snd b) <? snd (fst b)).
+
 Section TableData.
 Variable T : Type.
 Variable d : T.                                        (* Data::default() / DataRef::default() *)
 (* worksheet_range(&sheet_name) / worksheet_range_ref: the cell reader (property C01) *)
 Variable sheet_range : str -> outcome (range T).
 
-(* table_by_name / table_by_name_ref: range.range(start, end) on the sheet's range *)
+(* table_by_name / table_by_name_ref: Range::default() for a table without data rows, else
+   range.range(start, end) on the sheet's range *)
 Definition table_by_name (tables : list table_entry) (name : str)
   : outcome (str * str * list str * range T) :=
   do t <- get_table_meta tables name;
   do r <- sheet_range (te_sheet t);
-  do w <- window d r (fst (te_dims t)) (snd (te_dims t));
+  do w <- (if no_data (te_dims t) then Ok (@empty T)
+           else window d r (fst (te_dims t)) (snd (te_dims t)));
   Ok (te_name t, te_sheet t, te_cols t, w).
 End TableData.
 
@@ -513,15 +626,20 @@ Definition xls_worksheet_merge_cells_at (m : list (str * list dims)) (n : nat) :
 Record table_l : Type := mkTable {
   tl_name : str;               (* displayName *)
   tl_cols : list str;          (* column names, in order *)
-  tl_ref : dims;               (* the whole table: header, data, totals *)
+  tl_ref : dims;               (* the whole table: header, data, totals, insert row *)
   tl_header : N;               (* header rows: 0 or 1 *)
-  tl_totals : N }.             (* totals rows: 0 or 1 *)
+  tl_totals : N;               (* totals rows: 0 or 1 *)
+  tl_insert : bool }.          (* the insert row of an empty table is showing (insertRow) *)
 
-(* the data box: the reference minus the header rows at the top and the totals rows at the
-   bottom *)
-Definition data_box (t : table_l) : dims :=
-  ((fst (fst (tl_ref t)) + tl_header t, snd (fst (tl_ref t))),
-   (fst (snd (tl_ref t)) - tl_totals t, snd (snd (tl_ref t)))).
+(* rows at the bottom of the reference that hold no data *)
+Definition tl_below (t : table_l) : N := tl_totals t + (if tl_insert t then 1 else 0).
+(* the data box: the reference minus the header rows at the top and the totals rows / insert row
+   at the bottom; None when no row is left (header-only, totals-only, empty table) *)
+Definition data_box (t : table_l) : option dims :=
+  if fst (fst (tl_ref t)) + tl_header t + tl_below t <=? fst (snd (tl_ref t))
+  then Some ((fst (fst (tl_ref t)) + tl_header t, snd (fst (tl_ref t))),
+             (fst (snd (tl_ref t)) - tl_below t, snd (snd (tl_ref t))))
+  else None.
 
 Definition dims_ok (max_row max_col : N) (d : dims) : Prop :=
   fst (fst d) <= fst (snd d) /\ snd (fst d) <= snd (snd d) /\
@@ -537,13 +655,69 @@ Definition XLS_ROWS : N := 65536.      Definition XLS_COLS : N := 256.
 Definition qn (p : option str) (n : str) : str :=
   match p with None => n | Some p => p ++ [ch_colon] ++ n end.
 
-(* the usual attribute-value escaping of XML writers *)
-Definition esc_char (c : N) : str :=
-  if c =? 38 then s_amp else if c =? 60 then s_lt else if c =? 62 then s_gt
-  else if c =? 34 then s_quot else [c].
-Definition esc (s : str) : str := flat_map esc_char s.
-Definition special (c : N) : bool := (c =? 38) || (c =? 60) || (c =? 62) || (c =? 34).
-Definition needs_esc (s : str) : bool := existsb special s.
+(* ---------- how a name is spelled inside an attribute value ----------
+   A name is written as a sequence of pieces: literal bytes, a predefined entity, or a decimal /
+   hexadecimal character reference with any number of leading zeros. *)
+Inductive piece : Type :=
+| PLit (b : str)                              (* bytes as they are *)
+| PNamed (c : N)                              (* &amp; &lt; &gt; &quot; &apos; for the character c *)
+| PDec (cp : N) (w : nat)                     (* &#ddd;   the w low decimal digits of cp *)
+| PHex (cp : N) (w : nat) (upper : bool).     (* &#xhhh;  the w low hexadecimal digits of cp *)
+Definition spelling := list piece.
+
+(* the w low digits of n in the given radix, most significant first *)
+Fixpoint num_w (dig : N -> N) (radix : N) (w : nat) (n : N) : str :=
+  match w with
+  | O => []
+  | S k => num_w dig radix k (n / radix) ++ [dig (n mod radix)]
+  end.
+Definition decdig (x : N) : N := 48 + x.
+Definition hexdig (upper : bool) (x : N) : N :=
+  if x <? 10 then 48 + x else (if upper then 55 else 87) + x.
+Definition entity_name (c : N) : str :=
+  if c =? 38 then n_amp else if c =? 60 then n_lt else if c =? 62 then n_gt
+  else if c =? 34 then n_quot else if c =? 39 then n_apos else [].
+
+Definition render_piece (p : piece) : str :=
+  match p with
+  | PLit b => b
+  | PNamed c => [ch_amp] ++ entity_name c ++ [ch_semi]
+  | PDec cp w => [ch_amp; ch_hash] ++ num_w decdig 10 w cp ++ [ch_semi]
+  | PHex cp w up => [ch_amp; ch_hash; ch_x] ++ num_w (hexdig up) 16 w cp ++ [ch_semi]
+  end.
+Definition render_sp (sp : spelling) : str := flat_map render_piece sp.
+(* the name the spelling stands for *)
+Definition piece_value (p : piece) : str :=
+  match p with
+  | PLit b => b
+  | PNamed c => [c]
+  | PDec cp _ | PHex cp _ _ => utf8_enc cp
+  end.
+Definition sp_value (sp : spelling) : str := flat_map piece_value sp.
+
+(* a byte that may stand literally inside a double-quoted attribute value: not & (38), < (60),
+   the double quote (34), and not TAB / LF / CR (a conforming XML processor would normalise
+   those to a space) *)
+Definition lit_ok (c : N) : bool :=
+  negb ((c =? 38) || (c =? 60) || (c =? 34) || (c =? 9) || (c =? 10) || (c =? 13)).
+(* the production Char of XML 1.0 *)
+Definition xml_char (c : N) : bool :=
+  (c =? 9) || (c =? 10) || (c =? 13) || ((32 <=? c) && (c <=? 55295)) ||
+  ((57344 <=? c) && (c <=? 65533)) || ((65536 <=? c) && (c <=? 1114111)).
+Fixpoint pow_nat (b : N) (w : nat) : N := match w with O => 1 | S k => b * pow_nat b k end.
+Definition piece_legal (p : piece) : bool :=
+  match p with
+  | PLit b => forallb lit_ok b
+  | PNamed c => (c =? 38) || (c =? 60) || (c =? 62) || (c =? 34) || (c =? 39)
+  | PDec cp w => xml_char cp && (cp <? pow_nat 10 w)
+  | PHex cp w _ => xml_char cp && (cp <? pow_nat 16 w)
+  end.
+Definition sp_legal (sp : spelling) : bool := forallb piece_legal sp.
+(* the usual attribute-value escaping of XML writers, character by character *)
+Definition esc_piece (c : N) : piece :=
+  if (c =? 38) || (c =? 60) || (c =? 62) || (c =? 34) then PNamed c
+  else if lit_ok c then PLit [c] else PDec c 2.
+Definition esc_sp (s : str) : spelling := map esc_piece s.
 
 Inductive ref_style : Type :=
 | RefPair                    (* "A1:B2" (also for a single cell: "A1:A1") *)
@@ -613,8 +787,8 @@ Inductive target_style : Type :=
 | TgtRaw (s : str).
 Inductive type_style : Type :=
 | TyTransitional | TyStrict | TyRaw (s : str).
-Inductive insert_style : Type :=
-| IrAbsent | IrZero | IrFalse | IrRaw (s : str).     (* no insert row: absent, "0", "false" *)
+Inductive insert_style : Type :=      (* xsd:boolean: absent / "0" / "false" = no, "1" / "true" = yes *)
+| IrAbsent | IrZero | IrFalse | IrOne | IrTrue | IrRaw (s : str).
 
 Record table_choice : Type := mkTableChoice {
   tc_part : str;                          (* file name of the part under xl/tables/ *)
@@ -627,6 +801,8 @@ Record table_choice : Type := mkTableChoice {
   tc_hdr_explicit : bool;                 (* write headerRowCount="1" although it is the default *)
   tc_tot_explicit : bool;                 (* write totalsRowCount="0" although it is the default *)
   tc_insert : insert_style;
+  tc_name_sp : spelling;                  (* how the display name is written *)
+  tc_cols_sp : list spelling;             (* how each column name is written *)
   tc_extra : list (str * str);            (* other attributes of <table>, written first *)
   tc_col_extra : list (str * str);        (* other attributes of each <tableColumn>, after name *)
   tc_prefix : option str;                 (* namespace prefix inside the table part *)
@@ -660,7 +836,7 @@ Definition enc_other_rel (pp : option str) (r : str * str * str) : list event :=
 
 Definition table_attrs_of (t : table_l) (c : table_choice) : list (str * str) :=
   tc_extra c ++
-  [(s_name, esc (tl_name t)); (s_displayName, esc (tl_name t));
+  [(s_name, render_sp (tc_name_sp c)); (s_displayName, render_sp (tc_name_sp c));
    (s_ref, render_ref (tc_ref_style c) (tc_ref_lower c) (tl_ref t))] ++
   (if (tl_header t =? 1) && negb (tc_hdr_explicit c) then []
    else [(s_headerRowCount, dec (tl_header t))]) ++
@@ -668,17 +844,19 @@ Definition table_attrs_of (t : table_l) (c : table_choice) : list (str * str) :=
    | IrAbsent => []
    | IrZero => [(s_insertRow, s_zero)]
    | IrFalse => [(s_insertRow, s_false)]
+   | IrOne => [(s_insertRow, s_one)]
+   | IrTrue => [(s_insertRow, s_true)]
    | IrRaw s => [(s_insertRow, s)]
    end) ++
   (if (tl_totals t =? 0) && negb (tc_tot_explicit c) then []
    else [(s_totalsRowCount, dec (tl_totals t))]).
 
-Fixpoint enc_columns (p : option str) (extra : list (str * str)) (i : N) (cols : list str)
+Fixpoint enc_columns (p : option str) (extra : list (str * str)) (i : N) (cols : list spelling)
   : list event :=
   match cols with
   | [] => []
   | cn :: t =>
-      [EStart (qn p s_tableColumn) ([(s_id, dec i); (s_name, esc cn)] ++ extra);
+      [EStart (qn p s_tableColumn) ([(s_id, dec i); (s_name, render_sp cn)] ++ extra);
        EEnd (qn p s_tableColumn)] ++ enc_columns p extra (i + 1) t
   end.
 
@@ -686,8 +864,8 @@ Definition enc_table (tc : table_l * table_choice) : list event :=
   let t := fst tc in let c := snd tc in let p := tc_prefix c in
   tc_pre c ++
   [EStart (qn p s_table) (table_attrs_of t c);
-   EStart (qn p s_tableColumns) [(s_count, dec (N.of_nat (length (tl_cols t))))]] ++
-  enc_columns p (tc_col_extra c) 1 (tl_cols t) ++
+   EStart (qn p s_tableColumns) [(s_count, dec (N.of_nat (length (tc_cols_sp c))))]] ++
+  enc_columns p (tc_col_extra c) 1 (tc_cols_sp c) ++
   [EEnd (qn p s_tableColumns);
    EStart (qn p s_tableStyleInfo) [(s_name, s_style_name)]; EEnd (qn p s_tableStyleInfo);
    EEnd (qn p s_table)].
@@ -748,10 +926,17 @@ Definition sheets_of (wb : list sheet_e) : list (str * str) :=
 (* ---------- what the file declares (S) ---------- *)
 Definition spec_all_merges (wb : list sheet_e) : list (str * str * dims) :=
   flat_map (fun s => map (fun d => (se_name s, se_path s, d)) (se_regions s)) wb.
-Definition spec_table (sheet : str) (t : table_l) : table_entry :=
+(* what a table declares: name, sheet, column names, data box (None: no data rows) *)
+Definition table_spec := (str * str * list str * option dims)%type.
+Definition ts_name (t : table_spec) : str := fst (fst (fst t)).
+Definition spec_table (sheet : str) (t : table_l) : table_spec :=
   (tl_name t, sheet, tl_cols t, data_box t).
-Definition spec_tables (wb : list sheet_e) : list table_entry :=
+Definition spec_tables (wb : list sheet_e) : list table_spec :=
   flat_map (fun s => map (fun tc => spec_table (se_name s) (fst tc)) (se_tables s)) wb.
+(* what can be observed of a loaded table entry through table_names / table_by_name: the stored
+   box only through the test [no_data] *)
+Definition entry_obs (e : table_entry) : table_spec :=
+  (te_name e, te_sheet e, te_cols e, if no_data (te_dims e) then None else Some (te_dims e)).
 Fixpoint spec_sheet (wb : list sheet_e) (name : str) : option sheet_e :=
   match wb with
   | [] => None
@@ -765,12 +950,14 @@ Fixpoint nrange (a : N) (n : nat) : list N :=
   match n with O => [] | S k => a :: nrange (a + 1) k end.
 Definition spec_value (cells : list (pos * N)) (q : pos) : N :=
   fold_left (fun acc c => if corner_eqb (fst c) q then snd c else acc) cells 0.
-Definition spec_table_rows (cells : list (pos * N)) (b : dims) : list (list N) :=
-  if (fst (fst b) <=? fst (snd b)) && (snd (fst b) <=? snd (snd b)) then
+Definition spec_table_rows (cells : list (pos * N)) (ob : option dims) : list (list N) :=
+  match ob with
+  | Some b =>
     map (fun r => map (fun c => spec_value cells (r, c))
                       (nrange (snd (fst b)) (N.to_nat (snd (snd b) - snd (fst b) + 1))))
         (nrange (fst (fst b)) (N.to_nat (fst (snd b) - fst (fst b) + 1)))
-  else [].
+  | None => []
+  end.
 
 (* ---------- legality of the encoding choices ---------- *)
 Definition no_colon (s : str) : bool := negb (existsb (fun c => c =? ch_colon) s).
@@ -790,12 +977,27 @@ Definition table_quiet (e : event) : bool :=
   | _ => true
   end.
 
+Fixpoint strs_eqb (a b : list str) : bool :=
+  match a, b with
+  | [], [] => true
+  | x :: a', y :: b' => str_eqb x y && strs_eqb a' b'
+  | _, _ => false
+  end.
+Definition insert_legal (ins : bool) (st : insert_style) : bool :=
+  match st with
+  | IrAbsent | IrZero | IrFalse => negb ins
+  | IrOne | IrTrue => ins
+  | IrRaw _ => false
+  end.
+
 Definition table_choice_legal (tc : table_l * table_choice) : bool :=
   let t := fst tc in let c := snd tc in
   ref_style_legal (tc_ref_style c) (tl_ref t) &&
   match tc_target c with TgtRaw _ => false | _ => true end &&
   match tc_type c with TyRaw _ => false | _ => true end &&
-  match tc_insert c with IrRaw _ => false | _ => true end &&
+  insert_legal (tl_insert t) (tc_insert c) &&
+  sp_legal (tc_name_sp c) && str_eqb (sp_value (tc_name_sp c)) (tl_name t) &&
+  forallb sp_legal (tc_cols_sp c) && strs_eqb (map sp_value (tc_cols_sp c)) (tl_cols t) &&
   negb (existsb table_special_key (tc_extra c)) &&
   negb (existsb (key_is s_name) (tc_col_extra c)) &&
   prefix_ok (tc_prefix c) &&
@@ -804,7 +1006,7 @@ Definition table_choice_legal (tc : table_l * table_choice) : bool :=
   keys_distinct ([(s_id, []); (s_name, [])] ++ tc_col_extra c).
 
 Definition other_rel_legal (r : str * str * str) : bool :=
-  negb (str_eqb (snd (fst r)) s_table_type).
+  negb (is_table_type (snd (fst r))).
 
 Definition sheet_legal (s : sheet_e) : bool :=
   forallb reg_legal (se_regs s) &&
@@ -820,49 +1022,23 @@ Definition legal (wb : list sheet_e) : bool := forallb sheet_legal wb.
 (* ---------- the domain of the property ---------- *)
 Definition table_dom (t : table_l) : Prop :=
   dims_ok XLSX_ROWS XLSX_COLS (tl_ref t) /\ tl_header t <= 1 /\ tl_totals t <= 1 /\
-  (* header and totals rows fit into the reference (zero data rows: class EmptyData below) *)
-  fst (fst (tl_ref t)) + tl_header t + tl_totals t <= fst (snd (tl_ref t)) + 1.
+  (* header, totals and insert rows fit into the reference (zero data rows are allowed) *)
+  fst (fst (tl_ref t)) + tl_header t + tl_below t <= fst (snd (tl_ref t)) + 1.
 Definition table_domb (t : table_l) : bool :=
   dims_okb XLSX_ROWS XLSX_COLS (tl_ref t) && (tl_header t <=? 1) && (tl_totals t <=? 1) &&
-  (fst (fst (tl_ref t)) + tl_header t + tl_totals t <=? fst (snd (tl_ref t)) + 1).
+  (fst (fst (tl_ref t)) + tl_header t + tl_below t <=? fst (snd (tl_ref t)) + 1).
 Definition sheet_dom (s : sheet_e) : Prop :=
   Forall (dims_ok XLSX_ROWS XLSX_COLS) (se_regions s) /\
   Forall table_dom (map fst (se_tables s)).
 Definition sheet_domb (s : sheet_e) : bool :=
   forallb (dims_okb XLSX_ROWS XLSX_COLS) (se_regions s) && forallb table_domb (map fst (se_tables s)).
 
-(* ---------- known classes: where the current code departs from what the file declares ---------- *)
-Definition K_ESCAPED_TEXT : N := 1.     (* a table or column name that needs XML escaping comes back still escaped *)
-Definition K_ABSOLUTE_TARGET : N := 2.  (* a table relationship with an absolute target is not found *)
-Definition K_STRICT_TYPE : N := 3.      (* the ISO-strict relationship type is not recognised *)
-Definition K_INSERT_ROW_FALSE : N := 4. (* insertRow="false" is read as true: the last data row is cut *)
-Definition K_EMPTY_DATA : N := 5.       (* a table without data rows (header only): panic instead of an empty range *)
-
-Definition known_table (tc : table_l * table_choice) : option N :=
-  let t := fst tc in let c := snd tc in
-  match tc_target c with
-  | TgtAbsolute => Some K_ABSOLUTE_TARGET
-  | _ =>
-    match tc_type c with
-    | TyStrict => Some K_STRICT_TYPE
-    | _ =>
-      match tc_insert c with
-      | IrFalse => Some K_INSERT_ROW_FALSE
-      | _ => if needs_esc (tl_name t) || existsb needs_esc (tl_cols t)
-             then Some K_ESCAPED_TEXT
-             else if fst (fst (tl_ref t)) + tl_header t + tl_totals t =? fst (snd (tl_ref t)) + 1
-             then Some K_EMPTY_DATA else None
-      end
-    end
-  end.
-
-Fixpoint first_some (A B : Type) (f : A -> option B) (l : list A) : option B :=
-  match l with
-  | [] => None
-  | x :: t => match f x with Some y => Some y | None => first_some f t end
-  end.
-Definition known_sheet (s : sheet_e) : option N := first_some known_table (se_tables s).
-Definition known_C17 (wb : list sheet_e) : option N := first_some known_sheet wb.
+(* ---------- known classes ----------
+   None is left: the five classes of the first round (EscapedText, AbsoluteTarget, StrictType,
+   InsertRowFalse, EmptyData) were repaired in the Rust code (branch c17-fixes), M above mirrors
+   the repaired code and the table theorems hold without a known-class hypothesis.  The
+   function stays (constantly None) so that the correspondence keeps reporting the field. *)
+Definition known_C17 (wb : list sheet_e) : option N := None.
 
 (* ================================================================== ENCODER: xls *)
 Definition le16 (x : N) : list N := [x mod 256; x / 256].
